@@ -239,6 +239,11 @@ def run_scenario(ex, fnode, c, scen):
         env_pre = S.Env(ex, pre_store, dict(names), this_path if not is_ctor else None, dict(c.extra_env))
         ex.entry_env = env_pre
         extra = dict(c.extra_env)
+        ex.ghost_fn_syms = {}
+        for g, sorts in c.ghost_fns.items():
+            srt = [{'Int': z3.IntSort(), 'Real': z3.RealSort(), 'Bool': z3.BoolSort()}[x] for x in sorts]
+            ex.ghost_fn_syms[g] = z3.Function('ghostfn.' + g, *srt)
+        extra.update(ex.ghost_fn_syms)
         for k, e in c.lets.items():
             extra[k] = S.spec_eval_term(e, env_pre, extra)
             env_pre.extra[k] = extra[k]
@@ -339,7 +344,7 @@ def run_scenario(ex, fnode, c, scen):
                 ex.oblige('ensures', 'binds_' + fld, z3.BoolVal(bool(ok)), None, props=c.props_for('binds'))
             for lab, e in c.ensures:
                 ex.oblige('ensures', lab, S.spec_eval(e, env_post, ex2), None, props=c.props_for(lab))
-                if lab.startswith('hint:'):
+                if lab.startswith('hint:') or getattr(c, 'chain', False):
                     # proof hint: an intermediate assertion over the function's own variables; once it is an obligation
                     # of its own it may be used for the clauses that follow (never exported to callers)
                     S.MODE[0] = 'assume'
